@@ -4,6 +4,7 @@ From RJ Require Import Base.Prelude Base.OrderedPlan Model.Settings Model.Core M
   Spec.PlanSpec Spec.Mirror Proofs.FsProofs Proofs.ConfirmProofs Proofs.SyncProofs Proofs.MirrorProofs Proofs.InstanceProofs
   Proofs.CrashProofs Proofs.CrashMain Proofs.TouchedProofs Proofs.ConsentAll Proofs.KillEvents.
 From RJ Require Import Model.Paths Model.SyncTop.
+From RJ Require Model.Walker Proofs.WalkBridge Proofs.WalkedSync.
 
 (* A destination entry stays in the delete list (= a Delete* command is issued for it) only if the
    entry-deletion behaviour is "delete", or it is "prompt" and some prompt was answered "delete".
@@ -91,6 +92,18 @@ Theorem C03_end_to_end : forall now_z incl normalize chunker,
     ((exists m d m' d', n = NFile m d /\ fget (d_fs s) p = Some (NFile m' d')) /\ overwrite_consent cfg ans).
 Proof. intros now_z incl normalize chunker. exact (consent_end_to_end now_z incl normalize chunker). Qed.
 
+(* ... the same with both listings delivered by arbitrary executions of the directory walk (C17, Proofs/WalkBridge.v). *)
+Theorem C03_end_to_end_walked : forall now_z incl normalize chunker,
+  forall cfg S D ans bits ls ld,
+  wf_fs S -> wf_fs (d_fs D) -> d_open D = None ->
+  WalkedSync.walked now_z incl normalize S ls -> WalkedSync.walked now_z incl normalize (d_fs D) ld ->
+  let steps := snd (sync_plan now_z normalize chunker cfg S D ans bits ls ld) in
+  forall s, Touched (cf_fl cfg) S (d_fs D) (cmd_of_plan steps) (file_of_plan steps) s ->
+  forall p n, fget (d_fs D) p = Some n -> fget (d_fs s) p <> Some n ->
+    entry_consent cfg ans \/
+    ((exists m d m' d', n = NFile m d /\ fget (d_fs s) p = Some (NFile m' d')) /\ overwrite_consent cfg ans).
+Proof. exact WalkedSync.walked_consent. Qed.
+
 Theorem C03_end_to_end_executable : forall cfg S D a ans bits ex ft s,
   unique_keys S -> wf_fs S -> unique_keys D -> wf_fs D ->
   let ls := list_fs now_far (excl_incl ex) normalize_unix S in
@@ -114,3 +127,4 @@ Print Assumptions C03_overwrite_needs_consent.
 Print Assumptions C03_error_is_clean.
 Print Assumptions C03_end_to_end.
 Print Assumptions C03_end_to_end_executable.
+Print Assumptions C03_end_to_end_walked.
